@@ -358,10 +358,9 @@ C10.manifest = {
             "generated graph. The model is tied to the code on every run: all component sets, counts, per-node components "
             "(every node + an absent name), BFS from every node, bfs_equal_size_partitions for k=1..n+2 are compared, and a "
             "Python oracle re-checks the partition / reachability / size statements directly on the implementation's output.",
-    "note": "Termination is proved for breadth_first_search and bfs_equal_size_partitions; the component theorems "
-            "(connected, weak, strong) are partial-correctness statements about runs of the model that return - the fuel of "
-            "plain_bfs and of the SCC loop is validated per case (an OutOfFuel/Panic outcome of the model would differ from "
-            "the implementation), not proved. The theorems speak about reachability along the adjacency index each function reads (neighbour query, "
+    "note": "Total correctness: every function is also proved to RETURN (no unwrap fails, the model's explicit fuel is "
+            "never exhausted) on every graph state of the right kind that passes the executable coherence tests, which are "
+            "evaluated on every generated case. The theorems speak about reachability along the adjacency index each function reads (neighbour query, "
             "successors/predecessors name maps); that these agree with the edge list is checked per case (coherence tests + "
             "the edge-list checker on the model's output under two neighbour orders), its unbounded proof belongs to C02/C03. "
             "Trusted: Coq kernel + vm_compute; harness/printers/diff. Axioms: none (every pinned theorem is Closed under the "
